@@ -8,6 +8,7 @@
     the search only. *)
 From Coq Require Import ZArith Reals Floats Bool List Sorted.
 From Geo Require Import Base.GoPrim Base.F64 Gen.Approx Model.Approx Proofs.C20_Approx.
+From Geo Require Import Gen.CellIDFull.  (* s2_xyzToFaceUV *)
 Import ListNotations.
 
 (** SubsampleVertices ------------------------------------------------------ *)
